@@ -335,6 +335,7 @@ PARTS = [
     ('free root - slide-hinge stack - hinge chain', [dict(parent=-1, joints=F), dict(parent=0, joints=S + H), dict(parent=1, joints=H)]),
     ('double pendulum hinged to the world', [dict(parent=-1, joints=H), dict(parent=0, joints=H)]),
     ('slider on a world-attached rail with a hinge child', [dict(parent=-1, joints=S), dict(parent=0, joints=H)]),
+    ('free root with a slide child', [dict(parent=-1, joints=F), dict(parent=0, joints=S)]),
 ]
 
 
@@ -342,7 +343,8 @@ def components(U, rep, tier):
   s0 = int(os.environ.get('VERIF_SEED', '0') or 0)
   steps = 1 if tier == 'quick' else 2
   # world-attached parts listed before AND after free-floating ones (the world is 'link -1' for every root)
-  pairs = [(0, 3), (4, 1)] if tier == 'quick' else [(0, 3), (4, 1), (0, 1), (1, 2), (2, 0), (3, 4)]
+  # (0, 5): an all-hinge model next to one whose only 1-dof joint slides -- a per-GROUP joint-kind flag would leak
+  pairs = [(0, 3), (4, 1), (0, 5)] if tier == 'quick' else [(0, 3), (4, 1), (0, 5), (0, 1), (1, 2), (2, 0), (3, 4), (5, 3)]
   for backend in BACKENDS:
     f = U.func('brax.%s.pipeline.step' % backend)
     for ia, ib in pairs:
